@@ -156,8 +156,25 @@ Parsed ==
        IN /\ Report(B) /\ bad' = B /\ pos' = p /\ legal' = L /\ UNCHANGED seen
     /\ l' = l + 1
 
+\* two boards compared with `==`: boards that compare equal must hash equal (C04, first sentence, as
+\* stated); and the hash being a function of the position's identity only, two boards of equal identity
+\* (they may differ in the clocks) must hash equal whatever `==` says.  What `==` itself distinguishes is
+\* the implementation's choice as far as C04 goes: a difference from the identity is drift.
+Cmp ==
+    /\ l <= Len(Rec) /\ Rec[l].ev = "cmp"
+    /\ LET e == Rec[l]
+           a == PosOfJson(e.a)  b == PosOfJson(e.b)
+           same == IdentKey(a) = IdentKey(b)
+           B == Fail("C04", "boards-that-compare-equal-hash-differently", e.eq => e.za = e.zb)
+                \cup Fail("C04", "equal-positions-hashed-differently", same => e.za = e.zb)
+                \cup Fail("C04", "a-component-does-not-influence-the-hash", ~same => e.za # e.zb)
+                \cup Fail("DRIFT", "equality-differs-from-position-identity", e.eq = same)
+       IN Report(B) /\ bad' = B
+    /\ UNCHANGED <<pos, legal, seen>>
+    /\ l' = l + 1
+
 Init == l = 1 /\ pos = NoPos /\ legal = {} /\ bad = {} /\ seen = <<>>
-Next == Reset \/ Move \/ Parsed
+Next == Reset \/ Move \/ Parsed \/ Cmp
 Spec == Init /\ [][Next]_vars
 
 (***************************************************************************)
